@@ -19,6 +19,8 @@ import (
 //	hist : a hash-table history
 //	type : one object against every type symbol of the class registry, and coerce
 //	sub  : rows I, I+subRows, ... of the subtypep matrix over the class registry
+//	coerce : one source object x one documented coerce target (deterministic grid)
+//	user : freshly defined classes / flavors / conditions / structures (Defs) and an instance of each
 type Case struct {
 	Kind string `json:"kind"`
 	I    int    `json:"i,omitempty"`
@@ -26,33 +28,41 @@ type Case struct {
 	Test string `json:"test,omitempty"`
 	Haz  string `json:"haz,omitempty"`
 	Ops  []Op   `json:"ops,omitempty"`
+	Ty   string `json:"ty,omitempty"`
+	Defs []UDef `json:"defs,omitempty"`
 }
 
 const subRows = 64
 
 type plan struct {
-	rows, sub, typeFixed, histProbe, histExh, typeSeeded, mini, hist int
+	rows, sub, typeFixed, histProbe, coerceGrid, userFixed, sweep, histExh2, histExh, typeSeeded, user, mini, hist int
+	depth, depth2                                                                                                int
 }
 
 func planOf(tier string) plan {
-	p := plan{rows: len(universe), sub: subRows, typeFixed: len(typeObjects()), histProbe: len(probeHistories())}
+	p := plan{rows: len(universe), sub: subRows, typeFixed: len(typeObjects()), histProbe: len(probeHistories()),
+		coerceGrid: len(coerceSources) * len(coerceTargets), userFixed: len(fixedUserCases()), sweep: len(sweepHistories())}
 	if tier == "thorough" {
-		p.histExh = exhCount(4) * len(tests)
+		p.depth, p.depth2 = 4, 3
 		p.typeSeeded = 1500
+		p.user = 6000
 		p.mini = 40000
 		p.hist = 100000
 	} else {
-		p.histExh = exhCount(3) * len(tests)
+		p.depth, p.depth2 = 3, 2
 		p.typeSeeded = 150
+		p.user = 600
 		p.mini = 5000
 		p.hist = 12000
 	}
+	p.histExh = exhCount(p.depth) * len(tests)
+	p.histExh2 = exhCount(p.depth2) * len(tests)
 	return p
 }
 
 func nCases(tier string) int {
 	p := planOf(tier)
-	return p.rows + p.sub + p.typeFixed + p.histProbe + p.histExh + p.typeSeeded + p.mini + p.hist
+	return p.rows + p.sub + p.typeFixed + p.histProbe + p.coerceGrid + p.userFixed + p.sweep + p.histExh2 + p.histExh + p.typeSeeded + p.user + p.mini + p.hist
 }
 
 func gen(r *rand.Rand, i int, tier string) Case {
@@ -73,18 +83,34 @@ func gen(r *rand.Rand, i int, tier string) Case {
 		return probeHistories()[i]
 	}
 	i -= p.histProbe
+	if i < p.coerceGrid {
+		return Case{Kind: "coerce", Objs: []Obj{opq(coerceSources[i/len(coerceTargets)])}, Ty: coerceTargets[i%len(coerceTargets)]}
+	}
+	i -= p.coerceGrid
+	if i < p.userFixed {
+		return fixedUserCases()[i]
+	}
+	i -= p.userFixed
+	if i < p.sweep {
+		return sweepHistories()[i]
+	}
+	i -= p.sweep
+	if i < p.histExh2 {
+		return exhHistory(i, p.depth2, exhKeys2)
+	}
+	i -= p.histExh2
 	if i < p.histExh {
-		depth := 3
-		if tier == "thorough" {
-			depth = 4
-		}
-		return exhHistory(i, depth)
+		return exhHistory(i, p.depth, exhKeys)
 	}
 	i -= p.histExh
 	if i < p.typeSeeded {
 		return Case{Kind: "type", Objs: []Obj{randObj(r, 1+r.IntN(3))}}
 	}
 	i -= p.typeSeeded
+	if i < p.user {
+		return genUser(r, i)
+	}
+	i -= p.user
 	if i < p.mini {
 		return Case{Kind: "mini", Objs: genMini(r)}
 	}
@@ -104,6 +130,10 @@ func exec(x *fw.Ctx, c Case) {
 		execType(x, c)
 	case "sub":
 		execSub(x, c)
+	case "coerce":
+		execCoerce(x, c)
+	case "user":
+		execUser(x, c)
 	default:
 		x.Trivial()
 	}
@@ -120,6 +150,8 @@ const setupSrc = `
 (define-condition c16-cond (error) ())
 (defclass c16-k () ((v :initarg :v)))
 (defflavor c16-k2 ((v 1)) () :initable-instance-variables)
+(defstruct c16-st a b)
+(defstruct (c16-st2 (:include c16-st)) c)
 `
 
 var setupErr string
